@@ -355,8 +355,9 @@ def simulate_state(m, hist):
     if stale:
         res["cover"].append("stale_reference_observed")
     try:
-        if len(mm.recordings) == 0:
-            mm.record("v", verbose=False)
+        # fixed suffix request: record v everywhere (duplicates of earlier v recordings are dropped by record(), so a
+        # state name can reappear in the table after rows of other states)
+        mm.record("v", verbose=False)
         kw = {} if mm.externals else {"t_max": (T - 1) * DT + DT / 2}
         backend = "jax.sparse"
         got = np.asarray(jx.integrate(mm, delta_t=DT, voltage_solver=backend, **kw))
